@@ -359,9 +359,43 @@ func c14State(c *core.Ctx, w *World, when string) {
 				}
 			}
 
-			// MapPollard.GetMissingPositions + VerifyPartialProof
-			for _, in := range w.Insts {
+			// MapPollard.GetMissingPositions + VerifyPartialProof: the history's instances plus two
+			// forests started from the bare roots of this state (Full and not), the second pair
+			// after they were asked to remember A through a completed partial proof
+			insts := append([]*Inst(nil), w.Insts...)
+			for _, full := range []bool{true, false} {
+				for _, primed := range []bool{false, true} {
+					mp := u.NewMapPollardFromRoots(cloneHashes(f.Roots), f.N, full)
+					name := "mappartial/fromroots"
+					kind := "mappartial"
+					if full {
+						name, kind = "mapfull/fromroots", "mapfull"
+					}
+					if primed {
+						name += "+rememberedA"
+						missA := mp.GetMissingPositions(cloneU64(pa.Targets))
+						var ph []Hash
+						okA := true
+						for _, p := range missA {
+							if nd := f.Nodes[p]; nd != nil {
+								ph = append(ph, nd.Hash)
+							} else {
+								okA = false
+							}
+						}
+						if !okA || mp.VerifyPartialProof(cloneU64(pa.Targets), cloneHashes(ha), ph, true) != nil {
+							continue // judged below on the unprimed instance
+						}
+					}
+					insts = append(insts, &Inst{Cfg: InstCfg{Kind: kind, Rows: 63}, Name: name, MP: &mp, U: &mp, Rem: map[Hash]bool{}})
+					c.Count("from_roots_instances", 1)
+				}
+			}
+			for _, in := range insts {
 				mp := in.MP
+				if mp == nil {
+					continue
+				}
 				for _, set := range []struct {
 					h []Hash
 					p u.Proof
